@@ -10,15 +10,17 @@ from . import evalcore
 PROPERTY = 'C04'
 EXPLANATION = (
     'Decided from source: (C04.1) nothing an evaluation writes back (cell.value, need_update, XLRange.value) is '
-    'read by the evaluation path, except the value of a cell under the dominating test "no formula / formula '
-    'not to be evaluated"; (C04.2) every memo read on the evaluation path lives on an object that is created '
-    'afresh inside each top-level evaluate() call and is not kept by a long-lived object; no memoising '
-    'decorator on the path; (C04.3) the cells map only ever receives cell objects; (C04.4) set_cell_value, '
-    'get_cell_value and evaluate agree on defined-name indirection and all read/write the cell object held '
-    'by the cells map; evaluate stores its result in the cell it looked up; (C04.5) state kept on the evaluator '
-    'across evaluations (the evaluation stack) is restored on every exit path, so a failed evaluation cannot '
-    'change the result of a later one.'
-    ' (C04.2) also: nothing that depends on the evaluation is stored on a formula node (they live as long as the model); (C04.5) decided on witness models: failed and successful evaluations leave the evaluator as they found it.')
+    "read by the evaluation path, except the value of a cell under the dominating test 'no formula / formula not to "
+    "be evaluated' (semantic cell-state exclusion); (C04.2) every memo read on the evaluation path lives on an "
+    'object created afresh inside each top-level evaluate() call; no memoising decorator on the path; nothing that '
+    'depends on the evaluation is stored on a formula node (they live as long as the model); (C04.3) the cells map '
+    'only ever receives cell objects; (C04.4) Model.set_cell_value / get_cell_value / Evaluator.evaluate '
+    'interpreted on abstract models - a compiled one (the name is bound to the cell object of the cells map) and an '
+    'extracted one (the name holds its own copy): a value set through an address, a defined name or a cell object '
+    'lands in the cell object of the cells map, is read back by every spelling, evaluate resolves a name to its '
+    'cell, stores the result there and reads inputs from there; (C04.5) Evaluator.evaluate interpreted on witness '
+    'models: a failed and a successful evaluation leave the evaluator as they found it, the same cells evaluate '
+    'normally afterwards.')
 NOT_DECIDED = 'equality of the values with those of a freshly compiled model'
 TRUSTED = ['receiver typing is origin-based over this package only (cells map subscripts, constructor calls)']
 
